@@ -30,10 +30,13 @@ Definition dat (g : gst) (a : nat) : option dp :=
   else if Nat.ltb (a - ilo) (length (gd g)) then nth_error (gd g) (a - ilo)
   else if Nat.eqb (a - ilo) (length (gd g)) then Some (gcur g) else None.
 
-(* the target of jump entry [j] has depth [y] (or is owed it) *)
+(* the target of jump entry [j] has depth [y]: a placeholder is owed the depth
+   it was registered with until it is patched, any other entry has it *)
+Definition opened (g : gst) (j : nat) : Prop := exists y, In (j, y) (gopen g).
+
 Definition tgt (g : gst) (s : cst) (j : nat) (y : dp) : Prop :=
   jlo <= j /\ exists T, nth_error (cj s) (j - jlo) = Some T /\
-    ((j <> jlo /\ T = 0 /\ In (j, y) (gopen g)) \/ ((j = jlo \/ T <> 0) /\ dat g T = Some y)).
+    ((In (j, y) (gopen g) /\ (T = 0 \/ dat g T = Some y)) \/ (~ opened g j /\ dat g T = Some y)).
 
 Definition step_ok (g : gst) (s : cst) (pc : nat) (io : instr) (x : dp) : Prop :=
   let '(r, v) := x in
@@ -110,12 +113,17 @@ Hypothesis Hdat : forall a, a - ilo <= length (gd g) -> dat g' a = dat g a.
 Hypothesis Hcj : forall k T, nth_error (cj s) k = Some T -> nth_error (cj s') k = Some T.
 Hypothesis Hopen : incl (gopen g) (gopen g').
 Hypothesis Hbound : forall k T, nth_error (cj s) k = Some T -> T <= IL s.
+Hypothesis Hfresh : forall j, opened g' j -> opened g j \/ JL s <= j.
 
 Lemma tgt_mono : forall j y, tgt g s j y -> tgt g' s' j y.
 Proof.
   intros j y [Hj [T [HT H]]]. split; [exact Hj|]. exists T. split; [apply Hcj; exact HT|].
-  destruct H as [[A [B C]]|[A B]]; [left; auto|]. right. split; [exact A|].
-  rewrite Hdat; [exact B|]. pose proof (Hbound _ _ HT) as Hb. unfold il in Hb. lia.
+  assert (Hd : dat g T = Some y -> dat g' T = Some y).
+  { intros B. rewrite Hdat; [exact B|]. pose proof (Hbound _ _ HT) as Hb. unfold il in Hb. lia. }
+  destruct H as [[A B]|[A B]].
+  - left. split; [apply Hopen; exact A|]. destruct B as [B|B]; [left; exact B | right; apply Hd; exact B].
+  - right. split; [|apply Hd; exact B]. intros Ho. destruct (Hfresh j Ho) as [Ho'|Hge]; [exact (A Ho')|].
+    assert (j - jlo < length (cj s)) by (apply nth_error_Some; rewrite HT; discriminate). unfold jl in Hge. lia.
 Qed.
 
 Lemma step_ok_mono : forall pc io x, pc < IL s -> step_ok g s pc io x -> step_ok g' s' pc io x.
@@ -145,6 +153,7 @@ Proof.
   assert (Hdat : forall a, a - ilo <= length (gd g) -> dat (gemit g out) a = dat g a) by (intros; apply dat_gemit_old; assumption).
   assert (Hcj : forall k T, nth_error (cj s) k = Some T -> nth_error (cj (emit s io m)) k = Some T) by (intros; assumption).
   assert (Hopen : incl (gopen g) (gopen (gemit g out))) by apply incl_refl.
+  assert (Hfresh : forall j, opened (gemit g out) j -> opened g j \/ JL s <= j) by (intros j H; left; exact H).
   assert (Hb : forall k T, nth_error (cj s) k = Some T -> T <= IL s) by (intros k T H; apply (He k T H)).
   refine (conj _ (conj _ (conj _ (conj _ (conj _ _))))).
   - cbn [gemit gd emit ci]. rewrite !app_length. cbn. lia.
@@ -163,6 +172,7 @@ Qed.
 Lemma ginv0_new_hole : forall g s, ginv0 g s -> ginv0 g (new_jump s 0).
 Proof.
   intros g s Hg. pose proof Hg as [Hlen [Hne [He [Hs [Hj H0]]]]].
+  assert (Hfresh : forall j, opened g j -> opened g j \/ JL s <= j) by (intros j H; left; exact H).
   assert (Hdat : forall a, a - ilo <= length (gd g) -> dat g a = dat g a) by reflexivity.
   assert (Hcj : forall k T, nth_error (cj s) k = Some T -> nth_error (cj (new_jump s 0)) k = Some T).
   { intros k T H. cbn [new_jump cj]. rewrite nth_error_app1; [exact H|]. apply nth_error_Some. rewrite H. discriminate. }
@@ -181,9 +191,11 @@ Proof.
   - eapply (tgt_mono g g s (new_jump s 0)); eauto using incl_refl.
 Qed.
 
-Lemma ginv0_open_add : forall g s j y, ginv0 g s -> ginv0 (gopen_add g j y) s.
+Lemma ginv0_open_add : forall g s j y, ginv0 g s -> JL s <= j -> ginv0 (gopen_add g j y) s.
 Proof.
-  intros g s j y Hg. pose proof Hg as [Hlen [Hne [He [Hs [Hj H0]]]]].
+  intros g s j y Hg Hjl. pose proof Hg as [Hlen [Hne [He [Hs [Hj H0]]]]].
+  assert (Hfresh : forall j', opened (gopen_add g j y) j' -> opened g j' \/ JL s <= j').
+  { intros j' [y' [H|H]]; [inversion H; subst; right; exact Hjl | left; exists y'; exact H]. }
   assert (Hb : forall k T, nth_error (cj s) k = Some T -> T <= IL s) by (intros k T H; apply (He k T H)).
   assert (Hopen : incl (gopen g) (gopen (gopen_add g j y))) by (cbn; apply incl_tl, incl_refl).
   refine (conj _ (conj _ (conj _ (conj _ (conj _ _))))); auto.
@@ -193,11 +205,12 @@ Proof.
   - eapply (tgt_mono g (gopen_add g j y) s s); eauto.
 Qed.
 
-Lemma ginv0_new_join : forall g s, ginv0 g s -> ilo < IL s ->
+Lemma ginv0_new_join : forall g s, ginv0 g s -> ilo < IL s -> (forall j, opened g j -> j < JL s) ->
   ginv0 (gjoin_add g (JL s) (gcur g)) (new_jump s (IL s)).
 Proof.
-  intros g s Hg Hil. pose proof Hg as [Hlen [Hne [He [Hs [Hj H0]]]]].
+  intros g s Hg Hil Hob. pose proof Hg as [Hlen [Hne [He [Hs [Hj H0]]]]].
   set (g' := gjoin_add g (JL s) (gcur g)). set (s' := new_jump s (IL s)).
+  assert (Hfresh : forall j, opened g' j -> opened g j \/ JL s <= j) by (intros j H; left; exact H).
   assert (Hcj : forall k T, nth_error (cj s) k = Some T -> nth_error (cj s') k = Some T).
   { intros k T H. unfold s'. cbn [new_jump cj]. rewrite nth_error_app1; [exact H|]. apply nth_error_Some. rewrite H. discriminate. }
   assert (Hb : forall k T, nth_error (cj s) k = Some T -> T <= IL s) by (intros k T H; apply (He k T H)).
@@ -207,7 +220,7 @@ Proof.
   { split; [unfold jl; lia|]. exists (IL s). split.
     - unfold s'. cbn [new_jump cj]. replace (JL s - jlo) with (length (cj s)) by (unfold jl; lia).
       rewrite nth_error_app2 by lia. rewrite Nat.sub_diag. reflexivity.
-    - right. split; [right; lia|]. unfold dat, g'. cbn [gjoin_add gd gcur].
+    - right. split; [intros Ho; apply Hob in Ho; lia|]. unfold dat, g'. cbn [gjoin_add gd gcur].
       destruct (Nat.ltb (IL s) ilo) eqn:E; [apply Nat.ltb_lt in E; lia|].
       replace (IL s - ilo) with (length (gd g)) by (unfold il; lia).
       rewrite Nat.ltb_irrefl, Nat.eqb_refl. reflexivity. }
@@ -237,6 +250,7 @@ Proof. intros g s [Hlen _]. unfold il. lia. Qed.
 Lemma tgt_after_emit : forall g s io m out j y, ginv0 g s -> tgt g s j y -> tgt (gemit g out) (emit s io m) j y.
 Proof.
   intros g s io m out j y Hg Ht. pose proof Hg as [Hlen [_ [He _]]].
+  assert (Hfresh : forall j, opened (gemit g out) j -> opened g j \/ JL s <= j) by (intros j0 H; left; exact H).
   eapply (tgt_mono g (gemit g out) s (emit s io m)); eauto using incl_refl.
   - intros a Ha. apply dat_gemit_old. exact Ha.
   - intros k T H. apply (He k T H).
@@ -264,7 +278,7 @@ Qed.
 
 Lemma tgt_hole : forall g s j y,
   jlo < j -> nth_error (cj s) (j - jlo) = Some 0 -> In (j, y) (gopen g) -> tgt g s j y.
-Proof. intros g s j y Hj Hn Hin. split; [lia|]. exists 0. split; [exact Hn|]. left. repeat split; auto. lia. Qed.
+Proof. intros g s j y Hj Hn Hin. split; [lia|]. exists 0. split; [exact Hn|]. left. split; [exact Hin | left; reflexivity]. Qed.
 
 Lemma hole_entry : forall s, nth_error (cj (new_jump s 0)) (JL s - jlo) = Some 0.
 Proof.
@@ -281,7 +295,7 @@ Lemma ginv0_emit_jumpif : forall g s i m r v,
   ginv0 (gemit (gopen_add g (JL s) (r - 1, v)) (r - 1, v)) (emit (new_jump s 0) (i, ONum (JL s)) m).
 Proof.
   intros g s i m r v Hg Hc Hr Hi.
-  pose proof (ginv0_open_add _ _ (JL s) (r - 1, v) (ginv0_new_hole _ _ Hg)) as Hg1.
+  pose proof (ginv0_new_hole _ _ (ginv0_open_add _ _ (JL s) (r - 1, v) Hg (le_n _))) as Hg1.
   apply ginv0_emit; [exact Hg1|]. cbn [gopen_add gcur]. rewrite Hc.
   set (g1 := gopen_add g (JL s) (r - 1, v)) in *.
   assert (Hnext : dat (gemit g1 (r - 1, v)) (S (IL (new_jump s 0))) = Some (r - 1, v)).
@@ -298,7 +312,7 @@ Lemma ginv0_emit_logical : forall g s i m r v,
   ginv0 (gemit (gopen_add g (JL s) (r - 1, v)) (r, v)) (emit (new_jump s 0) (i, ONum (JL s)) m).
 Proof.
   intros g s i m r v Hg Hc Hr Hi.
-  pose proof (ginv0_open_add _ _ (JL s) (r - 1, v) (ginv0_new_hole _ _ Hg)) as Hg1.
+  pose proof (ginv0_new_hole _ _ (ginv0_open_add _ _ (JL s) (r - 1, v) Hg (le_n _))) as Hg1.
   apply ginv0_emit; [exact Hg1|]. cbn [gopen_add gcur]. rewrite Hc.
   set (g1 := gopen_add g (JL s) (r - 1, v)) in *.
   assert (Hnext : dat (gemit g1 (r, v)) (S (IL (new_jump s 0))) = Some (r, v)).
@@ -315,7 +329,7 @@ Lemma ginv0_emit_nested : forall g s m r v,
   ginv0 (gemit (gopen_add g (JL s) (0, 0)) (r + 1, v)) (emit (new_jump s 0) (I_Put, OExpr (JL s)) m).
 Proof.
   intros g s m r v Hg Hc.
-  pose proof (ginv0_open_add _ _ (JL s) (0, 0) (ginv0_new_hole _ _ Hg)) as Hg1.
+  pose proof (ginv0_new_hole _ _ (ginv0_open_add _ _ (JL s) (0, 0) Hg (le_n _))) as Hg1.
   replace (r + 1, v) with (r - e_pop (mkEff 0 1 0 0) + e_push (mkEff 0 1 0 0), v - e_vdown (mkEff 0 1 0 0) + e_vup (mkEff 0 1 0 0))
     by (cbn; f_equal; lia).
   apply ginv0_emit_eff; auto; cbn; try lia.
@@ -350,7 +364,7 @@ Qed.
 
 (* ---- the full invariant: placeholders are registered once, below the table's end ---- *)
 Definition open_ok (g : gst) (s : cst) : Prop :=
-  (forall j y, In (j, y) (gopen g) -> j < JL s) /\
+  (forall j y, In (j, y) (gopen g) -> jlo < j < JL s) /\
   (forall j y y', In (j, y) (gopen g) -> In (j, y') (gopen g) -> y = y').
 
 Definition ginv (g : gst) (s : cst) : Prop := ginv0 g s /\ open_ok g s.
@@ -358,10 +372,10 @@ Definition ginv (g : gst) (s : cst) : Prop := ginv0 g s /\ open_ok g s.
 Lemma open_ok_emit : forall g s out io m, open_ok g s -> open_ok (gemit g out) (emit s io m).
 Proof. intros g s out io m H. exact H. Qed.
 
-Lemma open_ok_hole : forall g s y, open_ok g s -> open_ok (gopen_add g (JL s) y) (new_jump s 0).
+Lemma open_ok_hole : forall g s y, open_ok g s -> jlo < JL s -> open_ok (gopen_add g (JL s) y) (new_jump s 0).
 Proof.
-  intros g s y [Hb Hf]. split.
-  - intros j y0 [H|H]; rewrite jl_new_jump; [inversion H; lia | specialize (Hb _ _ H); lia].
+  intros g s y [Hb Hf] Hpos. split.
+  - intros j y0 [H|H]; rewrite jl_new_jump; [inversion H; subst; lia | specialize (Hb _ _ H); lia].
   - intros j y1 y2 [H1|H1] [H2|H2].
     + congruence.
     + inversion H1; subst. specialize (Hb _ _ H2). lia.
@@ -395,7 +409,7 @@ Lemma step_jumpif : forall g s i m r v,
   ginv (gemit (gopen_add g (JL s) (r - 1, v)) (r - 1, v)) (emit (new_jump s 0) (i, ONum (JL s)) m).
 Proof.
   intros g s i m r v [Hg Ho] Hc Hr Hi.
-  split; [apply ginv0_emit_jumpif; auto | apply open_ok_emit, open_ok_hole; exact Ho].
+  split; [apply ginv0_emit_jumpif; auto | apply open_ok_emit, open_ok_hole; [exact Ho | eapply ginv0_jl_pos; exact Hg]].
 Qed.
 
 Lemma step_logical : forall g s i m r v,
@@ -403,7 +417,7 @@ Lemma step_logical : forall g s i m r v,
   ginv (gemit (gopen_add g (JL s) (r - 1, v)) (r, v)) (emit (new_jump s 0) (i, ONum (JL s)) m).
 Proof.
   intros g s i m r v [Hg Ho] Hc Hr Hi.
-  split; [apply ginv0_emit_logical; auto | apply open_ok_emit, open_ok_hole; exact Ho].
+  split; [apply ginv0_emit_logical; auto | apply open_ok_emit, open_ok_hole; [exact Ho | eapply ginv0_jl_pos; exact Hg]].
 Qed.
 
 Lemma step_nested : forall g s m r v,
@@ -411,7 +425,7 @@ Lemma step_nested : forall g s m r v,
   ginv (gemit (gopen_add g (JL s) (0, 0)) (r + 1, v)) (emit (new_jump s 0) (I_Put, OExpr (JL s)) m).
 Proof.
   intros g s m r v [Hg Ho] Hc.
-  split; [apply ginv0_emit_nested; auto | apply open_ok_emit, open_ok_hole; exact Ho].
+  split; [apply ginv0_emit_nested; auto | apply open_ok_emit, open_ok_hole; [exact Ho | eapply ginv0_jl_pos; exact Hg]].
 Qed.
 
 Lemma step_jumpto : forall g s j m out,
@@ -424,7 +438,10 @@ Proof. intros g s m out [Hg Ho] Hc. split; [apply ginv0_emit_end; auto | apply o
 
 Lemma step_join : forall g s, ginv g s -> ilo < IL s ->
   ginv (gjoin_add g (JL s) (gcur g)) (new_jump s (IL s)).
-Proof. intros g s [Hg Ho] Hil. split; [apply ginv0_new_join; auto | apply open_ok_join; exact Ho]. Qed.
+Proof.
+  intros g s [Hg Ho] Hil. split; [apply ginv0_new_join; auto | apply open_ok_join; exact Ho].
+  intros j [y Hy]. apply (proj1 Ho) in Hy. lia.
+Qed.
 
 (* ---- ghost facts about registered bodies and arms ---- *)
 Definition end_g (g : gst) (e : dp) (ends : list instr) : Prop :=
